@@ -541,6 +541,14 @@ func (c *FunctionComposer) Compose(ctx context.Context, xr *composite.Unstructur
 	xr.SetName(n)
 	xr.SetUID(u)
 
+	// Functions set custom status conditions by returning them in their
+	// response. The system conditions (e.g. Ready and Synced) are owned by the
+	// Reconciler, which derives them after this status patch. A Function must
+	// not be able to set them through the desired XR's status either - they
+	// would be persisted by the patch below, and would outlive this reconcile
+	// whenever it returns before (or fails at) its final status update.
+	removeSystemConditions(xr.Object)
+
 	// NOTE(phisco): Here we are fine using a hardcoded field owner as there is
 	// no risk of conflict between different XRs.
 	if err := c.client.Status().Patch(ctx, xr, client.Apply, client.ForceOwnership, client.FieldOwner(FieldOwnerXR)); err != nil {
@@ -551,6 +559,35 @@ func (c *FunctionComposer) Compose(ctx context.Context, xr *composite.Unstructur
 	}
 
 	return CompositionResult{ConnectionDetails: d.GetComposite().GetConnectionDetails(), Composite: compositeRes, Composed: resources, Events: events, Conditions: conditions}, nil
+}
+
+// removeSystemConditions removes all system conditions from the
+// status.conditions of the supplied unstructured object content. The
+// conditions are removed entirely if no other conditions remain, so that we
+// never apply an empty array of conditions.
+func removeSystemConditions(obj map[string]any) {
+	status, ok := obj["status"].(map[string]any)
+	if !ok {
+		return
+	}
+	conditions, ok := status["conditions"].([]any)
+	if !ok {
+		return
+	}
+	kept := make([]any, 0, len(conditions))
+	for _, c := range conditions {
+		if m, ok := c.(map[string]any); ok {
+			if t, ok := m["type"].(string); ok && xpv1.IsSystemConditionType(xpv1.ConditionType(t)) {
+				continue
+			}
+		}
+		kept = append(kept, c)
+	}
+	if len(kept) == 0 {
+		delete(status, "conditions")
+		return
+	}
+	status["conditions"] = kept
 }
 
 // ComposedFieldOwnerName generates a unique field owner name
